@@ -189,7 +189,7 @@ theorem undirectedCopy_ofGraph (d : Bool) (N : Nat) (hN : 2 ≤ N) (a : Nat → 
     intro i j hi hj
     rw [ofGraph_at, ofGraph_at]
     simp only [hi, hj, and_self, if_true, ind]
-    by_cases h1 : a i j = true <;> by_cases h2 : a j i = true <;> simp [h1, h2] <;> decide
+    by_cases h1 : a i j = true <;> by_cases h2 : a j i = true <;> simp [h1, h2]
   rw [this, init_dense false N hN _ w hw]
 
 
@@ -240,5 +240,159 @@ theorem loadViaAdjacency_fresh (g : IGraph) (gw : Option (Option (List Rat))) (n
   apply fresh_update
   exact assignWeights_fresh _ _ _ (assignWeights_fresh _ _ _ (init_fresh _ _ _ _ h0) h1) h2
 
+
+/-! ## what the canonical network looks like -/
+
+/-- adjacency entries are the 0/1 indicator of the graph (and 0 outside the index range) -/
+theorem canonical_adjacency (d : Bool) (N : Nat) (a : Nat → Nat → Bool) (w ea) (i j : Nat) :
+    (ofGraph d N a w ea).at i j = if i < N ∧ j < N then (if a i j then 1 else 0) else 0 :=
+  ofGraph_at d N a w ea i j
+
+/-- **symmetric with empty diagonal** when the graph is simple and undirected
+(empty diagonal also when directed) -/
+theorem canonical_symmetric_empty_diagonal (d : Bool) (N : Nat) (a : Nat → Nat → Bool)
+    (hs : Simple d N a) (w ea) (i j : Nat) :
+    (ofGraph d N a w ea).at i i = 0 ∧
+      (d = false → (ofGraph d N a w ea).at i j = (ofGraph d N a w ea).at j i) := by
+  constructor
+  · rw [ofGraph_at]
+    by_cases hi : i < N
+    · simp [hi, ind, hs.irr i hi]
+    · simp [hi]
+  · intro hd
+    rw [ofGraph_at, ofGraph_at]
+    by_cases hi : i < N <;> by_cases hj : j < N <;> simp [hi, hj, ind]
+    rw [hs.sym hd i j hi hj]
+
+/-- **link count, undirected**: `n_links` is the number of edges of the embedded
+graph, and the matrix has exactly twice as many non-zero cells -/
+theorem n_links_undirected (N : Nat) (a : Nat → Nat → Bool) (hs : Simple false N a) (w ea) :
+    (ofGraph false N a w ea).nLinks = (ofGraph false N a w ea).graph.length
+      ∧ (cells N a).length = 2 * (ofGraph false N a w ea).graph.length := by
+  have h := cells_length_undirected N a (hs.sym rfl) hs.irr
+  refine ⟨?_, h⟩
+  show (if false = true then (cells N a).length else (cells N a).length / 2) = _
+  simp only [Bool.false_eq_true, if_false]
+  show (cells N a).length / 2 = (graphEdges false N (cells N a)).length
+  omega
+
+/-- **link count, directed**: `n_links` is the number of edges of the embedded
+graph, which are exactly the non-zero cells -/
+theorem n_links_directed (N : Nat) (a : Nat → Nat → Bool) (hs : Simple true N a) (w ea) :
+    (ofGraph true N a w ea).nLinks = (ofGraph true N a w ea).graph.length
+      ∧ (ofGraph true N a w ea).graph = cells N a := by
+  have h := cells_eq_graph_directed N a hs.irr
+  refine ⟨?_, h⟩
+  show (cells N a).length = (graphEdges true N (cells N a)).length
+  rw [h]
+
+/-- **link density, undirected** (stated with the generated definition):
+`n_links / C(N, 2)` -/
+theorem link_density_undirected (N : Nat) (hN : 2 ≤ N) (a : Nat → Nat → Bool)
+    (hs : Simple false N a) (w ea) :
+    (ofGraph false N a w ea).density
+        = ArithC05.link_density ((cells N a).length : Int) N
+      ∧ (ofGraph false N a w ea).density
+        = ((ofGraph false N a w ea).nLinks : Rat) / ((N : Rat) * ((N : Rat) - 1) / 2) := by
+  refine ⟨rfl, ?_⟩
+  obtain ⟨h1, h2⟩ := n_links_undirected N a hs w ea
+  rw [h1]
+  show linkDensity ((cells N a).length : Int) N = _
+  rw [h2, ← gen_link_density_eq_model, gen_link_density_undirected _ N hN]
+
+/-- **link density, directed**: `n_links / (N (N - 1))`, within `[0, 1]` -/
+theorem link_density_directed (N : Nat) (a : Nat → Nat → Bool) (w ea) :
+    (ofGraph true N a w ea).density
+      = ((ofGraph true N a w ea).nLinks : Rat) / ((N : Rat) * ((N : Rat) - 1)) := by
+  show linkDensity ((cells N a).length : Int) N = _
+  rw [← gen_link_density_eq_model, gen_link_density_directed]
+  rfl
+
+/-- the embedded graph of the canonical network is a simple graph on the same
+nodes whose edges are exactly the links of `a` -/
+theorem canonical_graph (d : Bool) (N : Nat) (a : Nat → Nat → Bool) (hs : Simple d N a) (w ea) :
+    SimpleEdges d (ofGraph d N a w ea).graph
+      ∧ (∀ p ∈ (ofGraph d N a w ea).graph, p.1 < N ∧ p.2 < N)
+      ∧ ∀ i j, i < N → j < N → rel d (ofGraph d N a w ea).graph i j = a i j := by
+  refine ⟨simpleEdges_graphEdges d N a, ?_, rel_graphEdges d N a hs⟩
+  intro p hp
+  have := (mem_graphEdges_cells (d := d) (N := N) (a := a) (p := p)).1 hp
+  exact ⟨this.1, this.2.1⟩
+
+/-! ## the error branches the code has -/
+
+/-- fewer than two nodes: the setter divides by `N (N - 1) = 0`
+(`ZeroDivisionError`; known finding C05-K1) -/
+theorem setAdjacency_small (net : Net) (s : Sparse) (hsq : s.rows = s.cols) (hN : s.cols ≤ 1) :
+    setAdjacency net s = .error .zeroDivision := by
+  unfold setAdjacency
+  have h0 : (s.cols == 0 || s.cols == 1) = true := by
+    simp; omega
+  simp [hsq, h0]
+
+theorem setAdjacency_not_square (net : Net) (s : Sparse) (h : s.rows ≠ s.cols) :
+    setAdjacency net s = .error .networkError := by
+  unfold setAdjacency
+  simp [h]
+
+/-- a weight vector of the wrong length is rejected -/
+theorem setWeights_wrong_length (net : Net) (w : List Rat) (h : w.length ≠ net.N) :
+    setWeights net (some w) = .error .networkError := by
+  unfold setWeights
+  simp [h]
+
+/-- an empty edge list without `n_nodes` has no node count (`ValueError`), an
+edge naming a node `≥ n_nodes` is rejected (`ValueError`) -/
+theorem setEdgeList_errors (net : Net) :
+    setEdgeList net [] none = .error .valueError
+    ∧ ∀ (E : List (Nat × Nat)) (N : Nat) (p : Nat × Nat), p ∈ E → (N ≤ p.1 ∨ N ≤ p.2) →
+        setEdgeList net E (some N) = .error .valueError := by
+  constructor
+  · rfl
+  · intro E N p hp hbad
+    unfold setEdgeList
+    have : (List.any (if net.directed = true then E else E ++ E.map swap)
+        fun p => decide (N ≤ p.1) || decide (N ≤ p.2)) = true := by
+      rw [List.any_eq_true]
+      refine ⟨p, ?_, by simpa using hbad⟩
+      cases net.directed <;> simp [hp]
+    simp [this]
+
+/-! ## non-vacuity: the hypotheses are satisfiable by non-trivial states -/
+
+/-- the path 0 - 1 - 2 plus the isolated node 3 -/
+def exA (i j : Nat) : Bool :=
+  (i == 0 && j == 1) || (i == 1 && j == 0) || (i == 1 && j == 2) || (i == 2 && j == 1)
+
+/-- a directed graph with a reciprocated link, a single link and an isolated node -/
+def exD (i j : Nat) : Bool := (i == 0 && j == 1) || (i == 1 && j == 0) || (i == 2 && j == 0)
+
+def exE : List (Nat × Nat) := [(1, 0), (0, 1), (2, 1), (2, 1)]
+def exW : List Rat := [1, 2, 3 / 2, 0]
+
+example : Simple false 4 exA := ⟨by decide, fun _ => forall_lt_lt (by decide)⟩
+example : Simple true 4 exD := ⟨by decide, fun h => by cases h⟩
+example : ∀ p ∈ exE, p.1 < 4 ∧ p.2 < 4 := by decide
+/-- `exE` (both orientations, a repeated entry) describes `exA` -/
+example : ∀ i j, i < 4 → j < 4 → exA i j = rel false exE i j := forall_lt_lt (by decide)
+example : exW.length = 4 := rfl
+/-- so `dense_eq_edge_list` applies, and the common value is a network with 2 links, whose
+embedded graph has the 2 edges (0,1), (1,2) -/
+example : init false (.sparse (ofDenseMat 4 4 (ind exA))) (some exW)
+    = init false (.edges exE (some 4)) (some exW) :=
+  dense_eq_edge_list false 4 (by decide) exA exE (by decide) (forall_lt_lt (by decide)) exW rfl
+example : (ofGraph false 4 exA exW none).nLinks = 2
+    ∧ (ofGraph false 4 exA exW none).graph = [(0, 1), (1, 2)] := by decide
+example : (ofGraph true 4 exD exW none).nLinks = 3
+    ∧ (ofGraph true 4 exD exW none).graph = [(0, 1), (1, 0), (2, 0)] := by decide
+/-- a simple igraph object (hypotheses of `igraph_path`) -/
+example : SimpleEdges false [(0, 1), (1, 2)] ∧ SimpleEdges true [(0, 1), (1, 0), (2, 0)] :=
+  ⟨⟨by decide, fun _ => by decide⟩, ⟨by decide, fun h => by cases h⟩⟩
+/-- an edgeless network and a single-link network are instances, too -/
+example : Simple false 3 (fun _ _ => false) ∧ Simple false 2 (fun i j => i != j) :=
+  ⟨⟨by decide, fun _ => forall_lt_lt (by decide)⟩, ⟨by decide, fun _ => forall_lt_lt (by decide)⟩⟩
+/-- the error branches are reachable -/
+example : setAdjacency (Net.blank false 0) (ofDenseMat 1 1 fun _ _ => 0) = .error .zeroDivision :=
+  setAdjacency_small _ _ rfl (by decide)
 
 end Pyunicorn.Repr
